@@ -182,6 +182,12 @@ with the two theorems above: every committed height is hash-linked to the one be
 entry points into a committed block that contains it, and nothing is indexed above the head -/
 theorem C09_history_chain_linked (n : Node) (h : Reach n) : Linked n := reach_linked n h
 
+/-- **the chain meta's cumulative interchain count over every history**: after any sequence of persisted blocks and rollbacks the
+count the chain meta carries is the sum of the per-block interchain counts of exactly the blocks that are stored — a rollback takes
+off what the removed blocks had added, no more and no less -/
+theorem C09_history_cumulative_interchain_count (n : Node) (h : Reach n) :
+    n.cmeta.2.2 = ((n.tbl.inter.map countOf).sum) := reach_count n h
+
 /-- … in particular nothing above the head is found by height, after any history -/
 theorem C09_history_nothing_above_head (n : Node) (h : Reach n) (j : Nat) (hj : n.cmeta.1 < j) :
     getBlock n j false = none ∧ getBlock n j true = none := by
